@@ -227,4 +227,79 @@ def r6_trap(chk):
            where(sym.mod, f), '')
 
 
-RULES = [r1_lexer_aliases, r2_type_tables, r3_access, r4_import_table, r5_apply_table, r6_trap]
+def r7_translate_before_use(chk):
+    """in genSimpleSyntax of both generators the SMIv1 -> SMIv2 type-name table is applied before the name is
+    tested, looked up or emitted"""
+    model = chk.model
+    chk.doc('C16.R7', 'genSimpleSyntax (symbol table and IR generators): the type name read from the clause is passed '
+                      'through the SMIv1->SMIv2 table (typeClasses / SMI_TYPES) and only the translated value is '
+                      'tested against baseTypes, looked up in the import map, stored or returned')
+    n = 0
+    for rel, cname, table in ((ir.SYMTAB, 'SymtableCodeGen', 'typeClasses'), (ir.INTER, 'IntermediateCodeGen', 'SMI_TYPES')):
+        ci = model.cls(rel, cname)
+        o, fn = ci.find_method('genSimpleSyntax')
+        data = fn.args.args[1].arg
+        state = {}
+
+        def st_of(e):
+            if isinstance(e, ast.Name):
+                return state.get(e.id)
+            if isinstance(e, ast.Subscript) and norm(e) == '%s[0]' % data:
+                return 'raw'
+            if isinstance(e, ast.Call) and common.is_self_attr(e.func, 'transOpers') and e.args:
+                return st_of(e.args[0])
+            if isinstance(e, ast.Call) and norm(e.func) == 'self.%s.get' % table and e.args:
+                inner = st_of(e.args[0])
+                dflt = st_of(e.args[1]) if len(e.args) > 1 else None
+                return 'translated' if inner in ('raw', 'translated') and (dflt in ('raw', 'translated')) else inner
+            return None
+        uses = []
+        for stmt in walk_ordered(fn):
+            for e in ast.walk(stmt):
+                if isinstance(e, ast.Compare) and len(e.ops) == 1 and isinstance(e.ops[0], (ast.In, ast.NotIn)) and \
+                        norm(e.comparators[0]) == 'self.baseTypes':
+                    uses.append(('baseTypes test', e.left, st_of(e.left)))
+                if isinstance(e, ast.Call) and norm(e.func) == 'self._importMap.get' and e.args:
+                    uses.append(('import-map lookup', e.args[0], st_of(e.args[0])))
+            if isinstance(stmt, ast.Assign) and isinstance(stmt.targets[0], ast.Subscript) and \
+                    norm(stmt.targets[0].slice) == "'type'":
+                uses.append(('emitted type', stmt.value, st_of(stmt.value)))
+            if isinstance(stmt, ast.Return) and isinstance(stmt.value, ast.Tuple) and \
+                    isinstance(stmt.value.elts[0], ast.Tuple):
+                uses.append(('returned type', stmt.value.elts[0].elts[0], st_of(stmt.value.elts[0].elts[0])))
+            if isinstance(stmt, ast.Assign) and len(stmt.targets) == 1 and isinstance(stmt.targets[0], ast.Name):
+                v = st_of(stmt.value)
+                if v is not None:
+                    state[stmt.targets[0].id] = v
+                else:
+                    state.pop(stmt.targets[0].id, None)
+        for what, e, stt in uses:
+            n += 1
+            chk.ob('C16.R7', '%s.genSimpleSyntax/%s' % (cname, what), stt == 'translated', where(ci.mod, e),
+                   '%s uses %s, which is %s: an SMIv1 name (Counter, Gauge, NetworkAddress) is treated as a type of '
+                   'the compiled module' % (what, norm(e), 'the untranslated clause name' if stt == 'raw' else
+                                            'not derived from the clause name'))
+    chk.floor('C16.R7', 4, 'uses of the type name')
+
+
+def walk_ordered(fn):
+    """statements of fn in source order, compound statements before their bodies"""
+    out = []
+
+    def rec(body):
+        for st in body:
+            out.append(st)
+            for f in ('body', 'orelse', 'finalbody'):
+                rec(getattr(st, f, []) or [])
+            for h in getattr(st, 'handlers', []) or []:
+                rec(h.body)
+    rec(fn.body)
+    return out
+
+
+def r8_no_mutation_while_iterating(chk):
+    common.no_mutation_while_iterating(chk, 'C16.R8', [ir.SYMTAB, ir.INTER], floor=15)
+
+
+
+RULES = [r1_lexer_aliases, r2_type_tables, r3_access, r4_import_table, r5_apply_table, r6_trap, r7_translate_before_use, r8_no_mutation_while_iterating]
